@@ -65,6 +65,12 @@ var c14cNames = [2]string{"A", "B"}
 var c14cAlphabet = c14model.BaseEvents
 var c14cPreamble = []string{"app2", "commit", "applied", "app"}
 
+// Two snapshot saves can never share a batch: publishSnapshotAndCommit holds the DB-wide
+// snapshot lifecycle mutex from the directory rename until the commit is acknowledged, so the
+// second save only reaches the writer after the first batch was flushed. Such pairs are
+// sequential by design (covered by the sequential sections) and are not group pairs.
+func c14cIsSnapshotEvent(e string) bool { return e == "compact" || e == "install" || e == "instM" }
+
 func c14cSweepStale() {
 	ents, _ := os.ReadDir("/dev/shm")
 	for _, e := range ents {
@@ -247,7 +253,7 @@ func c14cEnumerate(start string, depth int, group bool) []c14cHistory {
 		} else {
 			for _, a := range append([]string{""}, ea...) {
 				for _, b := range append([]string{""}, eb...) {
-					if a == "" && b == "" {
+					if (a == "" && b == "") || (c14cIsSnapshotEvent(a) && c14cIsSnapshotEvent(b)) {
 						continue
 					}
 					cands = append(cands, c14cStep{a, b})
@@ -341,7 +347,7 @@ func c14cRunStep(db *DB, group bool, calls [2]*c14model.Call, started, acked *[2
 func c14cObserveBoth(db *DB, n uint64) [2]*c14model.Obs {
 	var o [2]*c14model.Obs
 	for si := 0; si < 2; si++ {
-		o[si] = c14model.Observe(context.Background(), db.For(c14cScopes[si]), n)
+		o[si] = c14model.ObserveLight(context.Background(), db.For(c14cScopes[si]), n)
 	}
 	return o
 }
@@ -378,6 +384,7 @@ func (w *c14cWorker) run(router *crashfs.Router, h c14cHistory, group bool, retr
 	models := [2][]*c14model.Scope{{{}}, {{}}} // models[s][j] = scope s after j of its calls
 	calls := [2][]c14model.Call{}               // calls[s][j] = the (j+1)-th call of scope s
 	var started, acked [2]atomic.Int64
+	var earlier [2][]*c14model.Scope // states inside the (acknowledged) preamble: only for classifying a loss
 	if h.start != "empty" {
 		for _, e := range c14cPreamble {
 			var cs [2]*c14model.Call
@@ -393,6 +400,7 @@ func (w *c14cWorker) run(router *crashfs.Router, h c14cHistory, group bool, retr
 				return fail("preamble %s: %v %v", e, errs[0], errs[1])
 			}
 			for si := 0; si < 2; si++ {
+				earlier[si] = append(earlier[si], models[si][0].Clone())
 				models[si][0].Apply(*cs[si])
 			}
 		}
@@ -508,7 +516,7 @@ func (w *c14cWorker) run(router *crashfs.Router, h c14cHistory, group bool, retr
 				return fail("materialize: %v", err)
 			}
 			router.Mount(w.prefix, crashfs.FromImage(mem))
-			v := w.checkImage(dbPath, root2, group, h, im, mode, meta, models, calls, maxLast+2, retry, &res)
+			v := w.checkImage(dbPath, root2, group, h, im, mode, meta, models, earlier, calls, maxLast+2, retry, &res)
 			_ = os.RemoveAll(root2)
 			if v != nil {
 				res.violation = v
@@ -525,7 +533,7 @@ func c14cDescribe(h c14cHistory, im crashfs.Image, mode string, meta *c14cMeta) 
 }
 
 func (w *c14cWorker) checkImage(dbPath, snapRoot string, group bool, h c14cHistory, im crashfs.Image, mode string, meta *c14cMeta,
-	models [2][]*c14model.Scope, calls [2][]c14model.Call, n uint64, retry bool, res *c14cResult) *ev.Violation {
+	models [2][]*c14model.Scope, earlier [2][]*c14model.Scope, calls [2][]c14model.Call, n uint64, retry bool, res *c14cResult) *ev.Violation {
 	where := "crash-" + mode
 	// the reopened store is used sequentially: no batch window
 	db, err := Open(dbPath, c14cOptions(snapRoot, false))
@@ -549,6 +557,14 @@ func (w *c14cWorker) checkImage(dbPath, snapRoot string, group bool, h c14cHisto
 			}
 		}
 		if len(best) > 0 {
+			past := append(append([]*c14model.Scope{}, earlier[si]...), models[si][:meta.acked[si]]...)
+			for _, pm := range past {
+				if len(pm.Diffs(obs[si])) == 0 {
+					return &ev.Violation{Fingerprint: "C14:acknowledged-call-lost@" + where, System: "crash", Replay: h.replay(group),
+						Message: fmt.Sprintf("%s: scope %s recovered exactly to an EARLIER reference state [%s]: acknowledged calls were lost (expected [%s])",
+							c14cDescribe(h, im, mode, meta), c14cNames[si], pm.Summary(), models[si][meta.acked[si]].Summary())}
+				}
+			}
 			return &ev.Violation{Fingerprint: "C14:" + best[0].Kind + "@" + where, System: "crash", Replay: h.replay(group),
 				Message: fmt.Sprintf("%s: scope %s equals no admitted reference state; nearest is the model after %d calls [%s]: %s (%d mismatching aspects)",
 					c14cDescribe(h, im, mode, meta), c14cNames[si], bestJ, models[si][bestJ].Summary(), best[0].Msg, len(best))}
@@ -744,7 +760,7 @@ func (in *c14gInst) Events() []string {
 	var out []string
 	for _, a := range append([]string{"-"}, in.m[0].Enabled(c14cAlphabet)...) {
 		for _, b := range append([]string{"-"}, in.m[1].Enabled(c14cAlphabet)...) {
-			if a == "-" && b == "-" {
+			if (a == "-" && b == "-") || (c14cIsSnapshotEvent(a) && c14cIsSnapshotEvent(b)) {
 				continue
 			}
 			out = append(out, a+"||"+b)
@@ -889,17 +905,19 @@ func TestVerifC14Crash(t *testing.T) {
 	var hs []c14cHistory
 	for _, start := range []string{"empty", "warm", "warm-reopened"} {
 		d := dSeq
-		if start != "warm" && !r.Thorough() {
-			d = 1
+		if start != "warm" {
+			d = ev.Pick(r, 1, 2)
 		}
-		if start != "warm" && r.Thorough() {
-			d = 2
+		for _, h := range c14cEnumerate(start, d, false) {
+			if len(h.steps) > ev.Pick(r, 1, 2) && h.steps[0][0] == "" {
+				continue // the longest histories start on scope A (quick: A;x, thorough: A;x;y); shorter ones are unrestricted
+			}
+			hs = append(hs, h)
 		}
-		hs = append(hs, c14cEnumerate(start, d, false)...)
 	}
 	c14cRunSection(r, router, "crash-seq", hs, false,
 		map[string]any{"depth_warm": dSeq, "depth_empty_and_warm_reopened": ev.Pick(r, 1, 2), "alphabet": c14cAlphabet, "scopes": []string{"slot/1", "controller/1"}, "preamble": c14cPreamble, "modes": []string{"kill", "power"}},
-		"every history of exactly d calls; every Pebble FS mutation + snapshot-directory seam is a crash point; every image (kill and power) reopened and compared with the model after j calls, acked<=j<=started, then the lost call re-issued")
+		"every history of exactly d calls (the longest ones - 2 calls quick, 3 thorough - start on scope A); every Pebble FS mutation + snapshot-directory seam is a crash point; every image (kill and power) reopened and compared with the model after j calls, acked<=j<=started, then the lost call re-issued")
 
 	if r.ViolationCount() == 0 {
 		res := mc.Run(r, mc.System{Name: "group-open", New: c14gNew, MaxDepth: ev.Pick(r, 1, 2), Workers: 8,
@@ -915,7 +933,11 @@ func TestVerifC14Crash(t *testing.T) {
 	}
 
 	if r.ViolationCount() == 0 {
-		hg := c14cEnumerate("warm", ev.Pick(r, 1, 2), true)
+		hg := c14cEnumerate("warm", 1, true)
+		if r.Thorough() {
+			hg = append(hg, c14cEnumerate("empty", 1, true)...)
+			hg = append(hg, c14cEnumerate("warm-reopened", 1, true)...)
+		}
 		if !r.Thorough() {
 			// quick: pairs only (single calls are the crash-seq section)
 			var keep []c14cHistory
@@ -927,7 +949,7 @@ func TestVerifC14Crash(t *testing.T) {
 			hg = keep
 		}
 		c14cRunSection(r, router, "crash-group", hg, true,
-			map[string]any{"depth": ev.Pick(r, 1, 2), "alphabet": c14cAlphabet, "start": "warm (preamble written as group pairs)", "WriteBatchMaxItems": 2, "modes": []string{"kill", "power"}},
+			map[string]any{"depth": 1, "alphabet": c14cAlphabet, "starts": ev.Pick(r, []string{"warm (preamble written as group pairs)"}, []string{"warm", "empty", "warm-reopened"}), "steps": ev.Pick(r, "pairs", "pairs and single calls (paired with a no-op on a private scope)"), "WriteBatchMaxItems": 2, "modes": []string{"kill", "power"}},
 			"concurrent pairs on crashfs; per-scope bound acked_s<=j_s<=started_s")
 	}
 	_ = multiraft.PersistentState{}
